@@ -78,7 +78,7 @@ Theorem C05_update_reserves : forall x now ip d ttl t t' n, unique_live now t ->
 Proof. exact update_reserves. Qed.
 Print Assumptions C05_update_reserves.
 
-(* ON THE WIRE, over whole histories: on every accepted history mon_C05 holds, i.e. all five clauses of the property as the
+(* ON THE WIRE, over whole histories: on every accepted history mon_C05 holds, i.e. all six clauses of the property as the
    monitors read them off frames and table listings:
    (i)  c05_hold: a selecting REQUEST for the address last offered to that client, arriving within the hold time counted from
         the OFFER's transmission, with no foreign ARP answer for it, is acknowledged with that address in its round;
@@ -87,6 +87,8 @@ Print Assumptions C05_update_reserves.
    ack_reserved: the listing after an ACK shows the address bound at least until the advertised lease time after the ACK left;
    c05_monotone: a binding or pending offer listed after one round is listed after the next - same address, same client, running at
         least as long - unless it has run out ("no message from it or from anyone else shortens that");
+   c05_suggest: a broadcast DISCOVER of an unreserved, unbound client that suggests a host address of the dynamic range which the listing
+        before the packet shows free and no foreign host answers for is, if answered, offered exactly that address;
    c05_silence: a broadcast DISCOVER of an unreserved, unbound client goes unanswered only if no address of the dynamic range is a
         host address, free in the listing before the packet and not answered for by a foreign host in this round.
    The acceptor (model/Server.v) is what every run compares the implementation with, round by round (tag 101); the premises
